@@ -173,6 +173,61 @@ func serverScenarios() []*spxScenario {
 			}
 			return x
 		}},
+		{Name: "S9-refusal-vs-handler-return", Role: "server", Build: func() *spxInst {
+			h := c19Server(harness.ServerOpts{MaxConcurrentStreams: 1})
+			x := &spxInst{s: h.S, srv: h}
+			x.start = func() {
+				x.startEnv(
+					&harness.EnvThread{Name: "peer", Steps: []harness.EnvStep{
+						{Kind: "inject", Bytes: frames(c19Req(h, 3, true))},
+						{Kind: "inject", Bytes: frames(c19Req(h, 5, true))},
+						{Kind: "inject", Bytes: frames(c19Req(h, 7, true))},
+					}},
+					&harness.EnvThread{Name: "handlers", Steps: []harness.EnvStep{
+						{Kind: "finish", Call: 1, Resp: harness.Resp{Status: 200, Headers: c19RespHdr, Body: []byte("r1")}},
+						{Kind: "finish", Call: 2, Resp: harness.Resp{Status: 200, Headers: c19RespHdr, Body: []byte("r2")}},
+						{Kind: "finish", Call: 3, Resp: harness.Resp{Status: 200, Headers: c19RespHdr, Body: []byte("r3")}},
+					}},
+				)
+			}
+			return x
+		}},
+		{Name: "S10-two-bodies-vs-connection-window", Role: "server", Build: func() *spxInst {
+			h := c19Server(harness.ServerOpts{PeerSettings: []peer.Setting{{ID: 4, Val: 100000}}})
+			x := &spxInst{s: h.S, srv: h}
+			x.start = func() {
+				x.startEnv(
+					&harness.EnvThread{Name: "peer", Steps: []harness.EnvStep{
+						{Kind: "inject", Bytes: frames(c19Req(h, 3, true), c19Req(h, 5, true))},
+						{Kind: "inject", Bytes: frames(peer.WindowUpdate(0, 10000))},
+						{Kind: "inject", Bytes: frames(peer.WindowUpdate(0, 60000))},
+					}},
+					&harness.EnvThread{Name: "handlers", Steps: []harness.EnvStep{
+						{Kind: "finish", Call: 1, Resp: harness.Resp{Status: 200, Headers: c19RespHdr, Body: []byte(valOfLen(40000))}},
+						{Kind: "finish", Call: 2, Resp: harness.Resp{Status: 200, Headers: c19RespHdr, Body: []byte(valOfLen(40001))}},
+					}},
+				)
+			}
+			return x
+		}},
+		{Name: "S13-idle-timeout-vs-new-request", Role: "server", Build: func() *spxInst {
+			h := c19Server(harness.ServerOpts{IdleTimeout: 3 * time.Second})
+			x := &spxInst{s: h.S, srv: h}
+			x.start = func() {
+				x.startEnv(
+					&harness.EnvThread{Name: "clock", Steps: []harness.EnvStep{{Kind: "fire"}}},
+					&harness.EnvThread{Name: "peer", Steps: []harness.EnvStep{
+						{Kind: "inject", Bytes: frames(c19Req(h, 3, true))},
+						{Kind: "inject", Bytes: frames(c19Req(h, 5, true))},
+					}},
+					&harness.EnvThread{Name: "handlers", Steps: []harness.EnvStep{
+						{Kind: "finish", Call: 1, Resp: harness.Resp{Status: 200, Headers: c19RespHdr, Body: []byte("r1")}},
+						{Kind: "finish", Call: 2, Resp: harness.Resp{Status: 200, Headers: c19RespHdr, Body: []byte("r2")}},
+					}},
+				)
+			}
+			return x
+		}},
 	}
 }
 
@@ -245,6 +300,23 @@ func clientScenarios() []*spxScenario {
 						{Kind: "peerclose"},
 					}},
 					&harness.EnvThread{Name: "user", Steps: []harness.EnvStep{{Kind: "spawn-caller", Spec: c19Spec("b", nil)}}},
+				)
+			}
+			return x
+		}},
+		{Name: "S11-ping-ticker-vs-request-vs-close", Role: "client", Build: func() *spxInst {
+			h := c19Client(harness.ClientOpts{PingInterval: time.Second})
+			x := &spxInst{s: h.S, cl: h}
+			x.start = func() {
+				sc := h.Conns[0]
+				h.SpawnCaller(c19Spec("a", []byte("body-a")))
+				x.startEnv(
+					&harness.EnvThread{Name: "server", Steps: []harness.EnvStep{
+						{Kind: "inject", Bytes: frames(peer.Ping(false, [8]byte{9}))},
+						{Kind: "inject", WaitHeaders: 1, Bytes: c19Resp(sc, 3, "first")},
+					}},
+					&harness.EnvThread{Name: "clock", Steps: []harness.EnvStep{{Kind: "fire", Sub: "conn.go"}, {Kind: "fire", Sub: "conn.go"}}},
+					&harness.EnvThread{Name: "closer", Steps: []harness.EnvStep{{Kind: "close"}}},
 				)
 			}
 			return x
